@@ -30,7 +30,7 @@ theorem C20_notify_stored (U : Universe) (hp : Passive U) (fuel : Nat) (t : TSt)
     (∀ g, g ≠ f → (setField U fuel t f v).1.read g = t.read g) ∧
     ∃ called : List (Obj × String),
       (setField U fuel t f v).1.d.log =
-        (called.map (cbEntry ((setField U fuel t f v).1.read f).show)).reverse ++ t.d.log ∧
+        (called.map (cbEntry U ((setField U fuel t f v).1.read f).show)).reverse ++ t.d.log ∧
       DeliveredOnce t.d f.event called := by
   have hr : (setField U fuel t f v).1.read f = sv := by
     simp only [setField, hs]; cases f <;> rfl
